@@ -312,6 +312,35 @@ theorem encodeParity_length (k p : Nat) (data : List (List UInt8)) (size : Nat) 
 
 end
 
+section
+open Sunrise Sunrise.Zk
+theorem submit_go_ok (ys : List (List UInt8)) : ∀ (js : List Int) (ms : List Nat), js.length = ms.length →
+    submitValidityProof.go ys js ms = .ok () →
+    ∀ k (hk : k < js.length) (hk' : k < ms.length), 0 ≤ js[k] ∧ js[k] < ys.length ∧ ms[k] = decode (ys.getD js[k].toNat []) := by
+  intro js
+  induction js with
+  | nil => intro ms _ _ k hk; simp at hk
+  | cons j js ih =>
+    intro ms hl h k hk hk'
+    cases ms with
+    | nil => simp at hl
+    | cons m ms =>
+      unfold submitValidityProof.go at h
+      split at h
+      · simp at h
+      · split at h
+        · simp at h
+        · split at h
+          · rename_i h1 h2 h3
+            cases k with
+            | zero => simp only [List.getElem_cons_zero]; omega
+            | succ k =>
+              simp only [List.getElem_cons_succ]
+              exact ih ms (by simpa using hl) h k (by simpa using hk) (by simpa using hk')
+          · simp at h
+
+end
+
 /-- non-vacuity of `encode_then_join_partial`: a concrete blob IS encodable in the model (kernel evaluation of the
     executable GF(2^8) encoder; the bytes are the ones the Go code returns: 0102 0304 0500 0706 093e) -/
 theorem erasureCode_example : ∃ e, RS.erasureCode [1, 2, 3, 4, 5] 3 2 = .ok e := by
